@@ -391,7 +391,7 @@ func (a *Ctx) CombineViews(b *Ctx) {
 				// the rule group decides everything on the inlined view and reports nothing there
 				o.Detail = "the rule group holds on the inlined view (as written: violation - " + o.Detail + ")"
 				o.Verdict = Discharged
-			case haveKey && o.Verdict == Undecided && bv == Violation && os.Getenv("GMSL_INLINE_ADD") != "":
+			case haveKey && o.Verdict == Undecided && bv == Violation && (os.Getenv("GMSL_INLINE_ADD") != "" || a.InlinedReports[group(o.Rule)+"|"+o.Construct]):
 				for _, bo := range b.Obs {
 					if bo.Rule == k.rule && bo.Construct == k.construct && bo.Verdict == Violation {
 						o.Verdict, o.Detail, o.Pos = Violation, bo.Detail+" [inlined view]", bo.Pos
